@@ -50,7 +50,9 @@ def run_one(s):
             if s["refine"]:
                 tr["refine"] = []
                 Nc = N[0]
-                kmax = min(modes, Nc // 2) - 1
+                # band-limited below the kept modes and representable on the coarse grid without aliasing: on an odd grid
+                # the highest frequency (Nc-1)/2 is an ordinary one, on an even grid the Nyquist frequency is excluded
+                kmax = min(modes - 1, (Nc - 1) // 2)
                 amps = torch.randint(-3, 4, (kmax + 1, 2, ch)).to(torch.float32)
 
                 def field(n):
